@@ -447,6 +447,14 @@ func dkgExec(d crypto.DKGState, p *dkgProc, c dkgCall) (o dkgObs) {
 		o.Class = "argument-modified" // no documented class: RUndef for the model and the oracles
 		return
 	}
+	// ... and they are the caller's memory again once the call returns: overwritten here, so that an instance
+	// that kept a reference to a seed or a message would behave differently later in the run
+	for i := range seed {
+		seed[i] ^= 0xa5
+	}
+	for i := range msg {
+		msg[i] ^= 0x5a
+	}
 	if o.Class == "" {
 		o.Class = dkgErrClass(err)
 		if isEnd && err == nil {
